@@ -161,6 +161,9 @@ class StoreCollector:
         self._seq = 0
         self._ord = 0
         self._guards: List[str] = []
+        self._facts: List[Tuple[str, Rat]] = []      # (tag, d) meaning `d <tag> 0`, parallel information to _guards
+        self._fact_marks: List[int] = []
+        self.hook = None                              # hook(expr_or_stmt, region) called before each statement / loop header / test
         # names that are mutated in place (element stores, out= arguments) are array variables: never copy-propagated
         self.mutated = set()
         for n in ast.walk(fn):
@@ -242,13 +245,54 @@ class StoreCollector:
             return [k if a else negate_key(k)]
         return interp(test, arm)
 
+    def _test_facts(self, test: ast.expr, arm: bool) -> List[Tuple[str, Rat]]:
+        """Affine facts `d <tag> 0` (tag in ge0/gt0/eq0/ne0) implied by a branch condition (integer-safe orientation)."""
+        N = self.N()
+        out: List[Tuple[str, Rat]] = []
+
+        def one(t, a):
+            if isinstance(t, ast.BoolOp):
+                if (isinstance(t.op, ast.And) and a) or (isinstance(t.op, ast.Or) and not a):
+                    for v in t.values:
+                        one(v, a)
+                return
+            if isinstance(t, ast.UnaryOp) and isinstance(t.op, ast.Not):
+                one(t.operand, not a)
+                return
+            if not (isinstance(t, ast.Compare) and len(t.ops) == 1):
+                return
+            try:
+                d = N.norm(t.left) - N.norm(t.comparators[0])
+            except Unsupported:
+                return
+            op = type(t.ops[0])
+            if not a:
+                op = {ast.Lt: ast.GtE, ast.LtE: ast.Gt, ast.Gt: ast.LtE, ast.GtE: ast.Lt, ast.Eq: ast.NotEq, ast.NotEq: ast.Eq}.get(op)
+            if op is ast.GtE:
+                out.append(("ge0", d))
+            elif op is ast.Gt:
+                out.append(("gt0", d))
+            elif op is ast.LtE:
+                out.append(("ge0", -d))
+            elif op is ast.Lt:
+                out.append(("gt0", -d))
+            elif op is ast.Eq:
+                out.append(("eq0", d))
+            elif op is ast.NotEq:
+                out.append(("ne0", d))
+        one(test, arm)
+        return out
+
     def _terminates(self, stmts) -> bool:
         return bool(stmts) and isinstance(stmts[-1], (ast.Return, ast.Continue, ast.Break, ast.Raise))
 
     def _block(self, stmts, region: Region):
         cur = region
         pushed = 0
+        pushed_f = 0
         for st in stmts:
+            if self.hook is not None:
+                self.hook(st, cur)
             if isinstance(st, ast.Expr):
                 if isinstance(st.value, ast.Constant):
                     continue  # docstring
@@ -273,10 +317,16 @@ class StoreCollector:
                     ks = self._test_keys(st.test, False)
                     self._guards.extend(ks)
                     pushed += len(ks)
+                    fs = self._test_facts(st.test, False)
+                    self._facts.extend(fs)
+                    pushed_f += len(fs)
                 elif st.orelse and self._terminates(st.orelse) and not self._terminates(st.body):
                     ks = self._test_keys(st.test, True)
                     self._guards.extend(ks)
                     pushed += len(ks)
+                    fs = self._test_facts(st.test, True)
+                    self._facts.extend(fs)
+                    pushed_f += len(fs)
             elif isinstance(st, ast.Return):
                 self.returns.append(st)
                 val = None
@@ -302,6 +352,8 @@ class StoreCollector:
                     self.fail(st, f"statement kind {type(st).__name__}")
         for _ in range(pushed):
             self._guards.pop()
+        for _ in range(pushed_f):
+            self._facts.pop()
 
     def _if(self, st: ast.If, region: Region):
         for arm, body in ((True, st.body), (False, st.orelse)):
@@ -309,14 +361,24 @@ class StoreCollector:
                 continue
             ks = self._test_keys(st.test, arm)
             self._guards.extend(ks)
+            fs = self._test_facts(st.test, arm)
+            self._facts.extend(fs)
             saved_env = dict(self.env)
             saved_cells = dict(self.cells)
+            arm_start = getattr(self, "_arm_start", None)
+            if arm_start is not None:
+                arm_start()
             self._block(body, region)
+            arm_end = getattr(self, "_arm_end", None)
+            if arm_end is not None:
+                arm_end()
             assigned = _assigned_names(body)
             self.env = {k: v for k, v in saved_env.items() if k not in assigned}
             self.cells = saved_cells
             for _ in ks:
                 self._guards.pop()
+            for _ in fs:
+                self._facts.pop()
         # cells written in an arm are unknown afterwards
         written = set()
         for s in ast.walk(st):
